@@ -6,7 +6,9 @@
    ops:  E f line c..   A f line c..   N f line c..      (expect / always / never)
          C f p=v,p=v                                     (call with named actuals; "C f" = no args)
          M strict|loose|learning      T (tally)      X (clear)
-   constraints c:  p<name>=<value>   t<n>   r<value>   s<g> (with_side_effect: the callback calls mocked function g with p0=1, p1=1)
+   constraints c:  p<name>=<value>   t<n>   r<value>   b<value> (will_return_by_value of a struct holding the value;
+                   the functions in BYVAL are given all their return values that way and the call reads the struct
+                   the mock hands back and frees it)   s<g> (with_side_effect: the callback calls mocked function g with p0=1, p1=1)
 
    Output per case: for each op "results/ret/queue" joined by ';' where
      results = <line>:<0|1> ... (line 0 = the test's own line), queue = f:line:ttl:ncalled:ntrig ...
@@ -42,6 +44,9 @@ static const char *pnames[] = { "p0", "p1", "p2", "p3", "p4", "p5" };
 static void visit(const char *function, int line, int ttl, int ncalled, int ntrig) {
     put("%d:%d:%d:%d:%d ", findex(function), line, ttl, ncalled, ntrig);
 }
+
+struct byvalue { long magic; long v; };
+#define BYVAL(fi) ((fi) == 1 || (fi) == 3)
 
 static TestReporter *the_reporter;
 static void nested_call(void *data) {
@@ -80,6 +85,10 @@ int main(void) {
                         cs[nc++] = when_(pnames[atoi(tok[i] + 1)], c);
                     } else if (tok[i][0] == 't') cs[nc++] = times_(atoi(tok[i] + 1));
                     else if (tok[i][0] == 'r') cs[nc++] = create_return_value_constraint((intptr_t)atoll(tok[i] + 1));
+                    else if (tok[i][0] == 'b') {
+                        struct byvalue bv = { 0x5eed, atoll(tok[i] + 1) };
+                        cs[nc++] = create_return_by_value_constraint((intptr_t)&bv, sizeof bv);
+                    }
                     else if (tok[i][0] == 's') cs[nc++] = create_with_side_effect_constraint(nested_call, (void *)(intptr_t)atoi(tok[i] + 1));
                 }
                 for (int i = nc; i < 12; i++) cs[i] = NULL;
@@ -101,6 +110,11 @@ int main(void) {
                     }
                 }
                 ret = mock_(rep, f, "mockvm.c", 9999, names, v[0], v[1], v[2], v[3], v[4], v[5]);
+                if (BYVAL(atoi(tok[1])) && ret != 0) {       /* the struct comes back as a copy the caller owns */
+                    struct byvalue *bv = (struct byvalue *)ret;
+                    ret = bv->magic == 0x5eed ? (intptr_t)bv->v : (intptr_t)-424242;
+                    free(bv);
+                }
             } else if (k == 'M') {
                 cgreen_mocks_are(tok[1][1] == 'o' ? loose_mocks : tok[1][1] == 'e' ? learning_mocks : strict_mocks);
             } else if (k == 'T') {
